@@ -448,7 +448,8 @@ def conformance(depth, cap):
 def callsite_part():
     """The arbiter's own use of the pid file (start / reload / promotion / halt), on the same simulated FS:
     histories of the real Arbiter.run() from the C10 and C14 explorations, judged here for the pid-file facts only."""
-    from props import c10, c14
+    from props import c04, c10, c14
+    from vlib import simkernel as sk
     viols = {}
     n = 0
     c14.patch_reexec_marker()
@@ -467,9 +468,31 @@ def callsite_part():
         for fp, text in c14.new_judge(params, k, o):
             if "pidfile" in fp:
                 viols.setdefault("callsite:promotion:" + fp, violation("callsite:promotion:" + fp, "new master, history %r: %s" % (script, text), {"callsite": "promotion"}))
+    # reload that spells the same pid file differently (./, //, x/..): it is the same file, and the master keeps it
+    for alias in ("/run/./app.pid", "/run//app.pid", "/run/sub/../app.pid", "/run/app.pid"):
+        c1 = sk.make_cfg(workers=2, timeout=30, graceful_timeout=2, pidfile=c04.PIDFILE, bind=["127.0.0.1:8000"])
+        c2 = sk.make_cfg(workers=2, timeout=30, graceful_timeout=2, pidfile=alias, bind=["127.0.0.1:8000"])
+        for script in ([("sig", "HUP")], [("sig", "HUP"), ("tick",), ("sig", "HUP")]):
+            k = sk.Kernel(script=list(script) + [("tick",)], term="now", settle=1)
+            k.fs.dirs.add("/run")
+            k.fs.dirs.add("/run/sub")
+            o = sk.run_arbiter([c1, c2, c1], k)
+            n += 1
+            snap = k.fs.snapshot()
+            if o.end == "horizon" and snap.get(c04.PIDFILE) != b"%d\n" % k.master_pid:
+                fp = "callsite:reload:pidfile-lost-with-alias-spelling"
+                viols.setdefault(fp, violation(fp, "history %r, the reloaded configuration spells the pid file %r: the master (pid %d) runs, the file now holds %r" % (
+                    list(script), alias, k.master_pid, snap.get(c04.PIDFILE)), {"callsite": "reload-alias"}))
+    # a worker whose worker_exit hook fails must not act on the master's pid file (real server, max_requests recycling)
+    from props import c18
+    v = c18.real_cell(("sync", 2, 0, "sequential+failing-exit-hook-1w", "unix"))
+    n += 1
+    if v and v[0] in ("pidfile-lost-at-recycle", "master-died"):
+        v2 = c18.real_cell(("sync", 2, 0, "sequential+failing-exit-hook-1w", "unix"))
+        if v2 and v2[0] == v[0]:
+            fp = "callsite:worker-exit:" + v[0]
+            viols.setdefault(fp, violation(fp, v[1], {"callsite": "worker-exit"}))
     # halt: the pid file goes when the master has finished stopping, not while it still waits for its workers
-    from props import c04
-    from vlib import simkernel as sk
     for term in ("now", "late", "never"):
         for sig in ("TERM", "QUIT", "INT"):
             for pre in ([], [("sig", "HUP")], [("sig", "TTIN")]):
